@@ -244,9 +244,17 @@ def exit_clears(run, F, E):
         ok = len(cl) == 1 and ir.const_val(cl[0].e['args'][0]) == sid and c.postdominates(cl[0], c.entry) and all(c.dominates(u, cl[0]) for u in user)
         run.ob('C08.e', 'S_<%s>::deepExit clears its own task status after exit()' % sid, ok, where=fn.pat, key='S_::deepExit does not clear the exiting state\'s task status')
     for fn in F.find('PlanDataT', 'clearTaskStatus'):
-        calls = sorted((pp_it(e['obj']), ir.strip(e['args'][0]).get('pi')) for e, g in E.call_sites(fn) if e.get('m') == 'clear' and ir.is_expr(e.get('obj')))
-        ok = calls == [('tasksFailures', 0), ('tasksSuccesses', 0)]
-        run.ob('C08.e', 'PlanDataT::clearTaskStatus(id) clears both bits of id', ok, where=fn.pat, detail=calls, key='clearTaskStatus does not clear both bits')
+        # both bits of the given state, unconditionally (an exiting state's reports must not survive its exit, whether or not a plan
+        # exists at that moment)
+        c = cfgmod.cfg_of(fn)
+        cl = c.events(('call',), lambda n: n.e.get('m') == 'clear' and ir.is_expr(n.e.get('obj')) and n.e.get('args'))
+        calls = sorted((pp_it(n.e['obj']), ir.strip(n.e['args'][0]).get('pi')) for n in cl)
+        def only_the_id(b_):
+            # a test of the argument itself (`stateId != INVALID`): nothing but the parameter and constants
+            return b_.e is not None and all(x['k'] in ('c', 'bin', 'un', 'cast') or (x['k'] == 'var' and x.get('vk') == 'param' and x.get('pi') == 0)
+                                             for x in ir.walk(b_.e))
+        ok = calls == [('tasksFailures', 0), ('tasksSuccesses', 0)] and all(all(only_the_id(b_) for b_ in c.control_deps_closure(n)) for n in cl)
+        run.ob('C08.e', 'PlanDataT::clearTaskStatus(id) clears both bits of id, unconditionally', ok, where=fn.pat, detail=calls, key='clearTaskStatus does not clear both bits')
 
 
 def sibling_rule(run, F, E):
